@@ -55,6 +55,7 @@ func vhSymPoint() *SweepPoint {
 
 // C01-H1: InResult == (F_op below) != (F_op above) for AND/OR/NOT/XOR, DIV counts subject sides.
 func VH_C01_inresult() {
+	vMerge(false) // small bit-vector queries per path are much cheaper than merged ones here
 	s := vhSymPoint()
 	ops := [5]pathOp{opAND, opOR, opNOT, opXOR, opDIV}
 	op := ops[vChoose(0, 4)]
@@ -83,6 +84,7 @@ func VH_C01_inresult() {
 // C01-H1b: open subject segments: kept by Settle/OR/DIV, by AND if the clipping path fills a
 // side, by NOT/XOR if the clipping path leaves a side unfilled.
 func VH_C01_inresult_open() {
+	vMerge(false) // small bit-vector queries per path are much cheaper than merged ones here
 	s := vhSymPoint()
 	s.open = true
 	s.clipping = false
@@ -109,6 +111,7 @@ func VH_C01_inresult_open() {
 
 // C02-H1: opSettle membership for the four fill rules.
 func VH_C02_inresult_settle() {
+	vMerge(false) // small bit-vector queries per path are much cheaper than merged ones here
 	s := vhSymPoint()
 	s.clipping = false
 	rule := FillRule(vChoose(0, 3))
@@ -124,6 +127,7 @@ func VH_C02_inresult_settle() {
 // C01-H2: computeSweepFields: windings below cur = windings above the first non-vertical
 // segment below it, in subject/clipping terms; nil => 0.
 func VH_C01_sweepfields() {
+	vMerge(false) // small bit-vector queries per path are much cheaper than merged ones here
 	cur := &SweepPoint{other: &SweepPoint{}}
 	cur.clipping = vNondetBool()
 	cur.increasing = vNondetBool()
@@ -186,6 +190,7 @@ func vhSelfSC(s *SweepPoint) (int, int) {
 }
 
 func VH_C01_mergeoverlap() {
+	vMerge(false) // small bit-vector queries per path are much cheaper than merged ones here
 	n := vChoose(1, 3) // segments below s in the prev chain
 	s := vhSymPoint()
 	s.Point, s.other.Point = Point{0, 0}, Point{4, 2}
